@@ -19,7 +19,8 @@ Inductive query :=
 | QTmmInternal (X : BT) (* op._t_matmul(X): internal; reached publicly below Root-like parents and in backward *)
 | QToDense              (* op.to_dense() *)
 | QTToDense             (* op.mT.to_dense() *)
-| QSize.                (* op.shape (= size(), batch_shape + matrix_shape); observed as ObsT bs m n [] *)
+| QSize                 (* op.shape (= size(), batch_shape + matrix_shape); observed as ObsT bs m n [] *)
+| QAccessors.           (* op.dim() (= ndimension()) and op.numel(); observed as ObsT [] dim numel [] *)
 
 Definition shape_eqb3 (s : sz3) (bs : shape) (m n : nat) : bool :=
   shape_eqb (sz_b s) bs && Nat.eqb (sz_m s) m && Nat.eqb (sz_n s) n.
@@ -36,7 +37,8 @@ Definition run_query (e : OpExpr) (q : query) (o : obs) : bool :=
       | QTmmInternal X => BT_matches (mm true e X) bs r c t
       | QToDense => BT_matches (td e) bs r c t
       | QTToDense => BT_matches (td (tr e)) bs r c t
-      | QSize => shape_eqb3 (sz e) bs r c
+      | QSize => shape_eqb3 (pub_shape e) bs r c
+      | QAccessors => Nat.eqb (pub_dim e) r && Nat.eqb (pub_numel e) c
       end
   end.
 
